@@ -1,7 +1,7 @@
 (* model side of the C13 correspondence.
    line: <id> <sheet> ; <node>
      sheet := S <nOwn> <tester>* <nImports> <sheet>*      tester := a+ | a- | n<uri>+ | q<uri>.<local>-   (+ strip, - preserve)
-     node  := E<uri>.<local>:<nkids> <node>* | T<hex>.<hex>... | C | P
+     node  := E<uri>.<local>:<nkids>[p|d|o] <node>*   (p/d/o: xml:space preserve / default / other value) | T<hex>.<hex>... | C | P
    line: <id> N <depth.from.count.stripped>*   (current node first, then its predecessors in reverse document order)
    out : <id> <number_any of the walk> <number_any of the physically stripped walk>
    out : <id> D=<0|1 per whitespace-only text node, 1 = stripped> SV=<hex code points joined by .> NN=<n> NT=<n> KC=<n,n,...> L=<tester list after postConstruction> *)
@@ -49,13 +49,22 @@ let rec parse_node (l : string list) : node * string list =
         let body = String.sub t 1 (String.length t - 1) in
         (match String.split_on_char ':' body with
          | [nm; k] ->
+             (* optional trailing letter: p = xml:space="preserve", d = "default", o = another value *)
+             let kl = String.length k in
+             let (k, xs) = if kl > 0 && (k.[kl - 1] = 'p' || k.[kl - 1] = 'd' || k.[kl - 1] = 'o')
+                           then (String.sub k 0 (kl - 1), Some k.[kl - 1]) else (k, None) in
+             let attrs = match xs with
+               | Some 'p' -> [((xml_ns, space_local), preserve_value)]
+               | Some 'd' -> [((xml_ns, space_local), default_value)]
+               | Some _ -> [((xml_ns, space_local), [n_of_int 120])]
+               | None -> [] in
              (match String.split_on_char '.' nm with
               | [u; lc] ->
                   let k = int_of_string k in
                   let rec kids k l acc = if k = 0 then (List.rev acc, l) else
                     let (x, r) = parse_node l in kids (k - 1) r (x :: acc) in
                   let (ks, r) = kids k r [] in
-                  (Elem ((n_of_int (int_of_string u), n_of_int (int_of_string lc)), [], ks), r)
+                  (Elem ((n_of_int (int_of_string u), n_of_int (int_of_string lc)), attrs, ks), r)
               | _ -> failwith "bad element name")
          | _ -> failwith "bad element")
       else failwith ("bad node token " ^ t)
